@@ -143,6 +143,20 @@ class C12(Check):
                             "url": rng.choice(URLS)})
                 nh += 1
                 continue
+            if r < 0.08 + w_hostile and rng.random() < 0.3:
+                # a scale key (it comes from the info file, i.e. possibly from
+                # a third party) that would place the chunk outside
+                on_sh = rng.random() < 0.35
+                ops.append({"op": rng.choice(["store_chunk", "fetch_chunk"]),
+                            "h": "sh" if on_sh else rng.randrange(nh),
+                            "key": rng.choice(["../evil", "/simfs/outside/k"]
+                                              if on_sh else
+                                              ["../esc", "k0/../../esc",
+                                               "/simfs/outside/k", ".."]),
+                            "hostile": True, "ci": rng.randrange(6),
+                            "n": 10, "ps": rng.randrange(1 << 30),
+                            "ow": None})
+                continue
             if r < 0.08 + w_hostile:
                 ops.append({"op": rng.choice(["store_file", "fetch_file",
                                               "file_exists"]),
@@ -208,6 +222,26 @@ class C12(Check):
 
             def sharded():
                 if sh_acc[0] is None:
+                    # an info (as it could be copied from a third party) one
+                    # of whose scale keys points outside the dataset
+                    import json
+                    sharding = {"@type": "neuroglancer_uint64_sharded_v1",
+                                "minishard_bits": 0, "shard_bits": 0,
+                                "preshift_bits": 0, "hash": "identity",
+                                "minishard_index_encoding": "raw",
+                                "data_encoding": "raw"}
+                    sh_info = json.dumps({
+                        "type": "image", "data_type": "uint8",
+                        "num_channels": 1, "scales": [
+                            {"key": k_, "size": [12, 12, 8],
+                             "chunk_sizes": [[4, 4, 4]], "encoding": "raw",
+                             "resolution": [1, 1, 1],
+                             "voxel_offset": [0, 0, 0],
+                             "sharding": dict(sharding)}
+                            for k_ in ("ok", "../evil",
+                                       "/simfs/outside/k")]}).encode()
+                    fs.put(SH + "/info", sh_info)
+                    shfiles["info"] = sh_info
                     s, a = sut(get_accessor_for_url, SH,
                                {"sharding": "1,1,0"})
                     if s == "exc":
@@ -463,9 +497,21 @@ class C12(Check):
                         f"op {i}: {want} does not hold the stored bytes")
 
     def _hostile(self, res, fs, acc, op, i, before, is_sh):
-        name = op["name"]
+        name = op.get("name", op.get("key"))
         kind = op["op"]
-        if kind == "store_file":
+        if kind == "store_chunk" and is_sh:
+            def store_and_flush():
+                acc.store_chunk(payload(op["ps"], 64), name, (0, 4, 0, 4, 0, 4))
+                acc.close()
+            s, v = sut(store_and_flush)
+        elif kind == "fetch_chunk" and is_sh:
+            s, v = sut(acc.fetch_chunk, name, (0, 4, 0, 4, 0, 4))
+        elif kind == "store_chunk":
+            s, v = sut(acc.store_chunk, payload(op["ps"], op["n"]), name,
+                       tuple(coords_of(op["ci"])))
+        elif kind == "fetch_chunk":
+            s, v = sut(acc.fetch_chunk, name, tuple(coords_of(op["ci"])))
+        elif kind == "store_file":
             s, v = sut(acc.store_file, name, payload(op["ps"], op["n"]),
                        overwrite=op["ow"])
         elif kind == "fetch_file":
